@@ -123,7 +123,7 @@ def run(names, tier: str, scale: float) -> int:
             if not apply_patch(copy, os.path.join(dest, "patch.diff")):
                 print("%-10s patch no longer applies" % n)
                 continue
-            rc, sigs, dt, _ = run_check(copy, meta["property"], tier, scale)
+            rc, sigs, dt, _ = run_check(copy, meta.get("property_checked_by", meta["property"]), tier, scale)
             meta["check_%s" % tier] = {"rc": rc, "signatures": sigs, "seconds": dt}
             json.dump(meta, open(os.path.join(dest, "meta.json"), "w"), indent=1)
             print("%-10s rc=%d %6.1fs %s" % (n, rc, dt, "; ".join(sigs)[:170]))
